@@ -161,6 +161,8 @@ def run(ck):
     from props import C02 as _C02, common as _cm20
 
     _cm20.import_results(ck, _C02, "2", "Poll::poll", "6")
+    # a slot that was handed out keeps its generation counter for good (the slot vector never shrinks): shared with C01.4
+    _cm20.import_results(ck, C01, "4", None, "6")
     for r in ck.results[n0:]:
         obligations.append((r["key"], r["verdict"] == "ok"))
 
